@@ -52,6 +52,26 @@ class Sim:
         self.pollerr = False
         self.user_ref = False
         self.old_conns = 0           # connection objects kept only by the user
+        self.hooks_up, self.hooks_down = [], []   # operations the connection callback will perform (one per report)
+
+    def hook(self, cb):
+        """the user's callback: the first operation registered for this report, unless the client is gone"""
+        if not self.alive:
+            return
+        hs = self.hooks_up if cb == "up" else self.hooks_down
+        if not hs:
+            return
+        o = hs.pop(0)
+        if o == "disconnect":
+            self.tconnect = False
+            if cb == "up" and self.conn == "C":
+                self.conn = "X"
+        elif o == "stop":
+            self.tconnect = self.cconnect = False
+            self.q.append("stop")
+        elif o == "connect":
+            self.tconnect = self.cconnect = True
+            self.start_cycle()
 
     def quiet(self):
         return self.alive and self.phase == "idle" and self.conn is None and "start" not in self.q
@@ -97,6 +117,8 @@ class Sim:
                 self.conn = "X"
         elif o == "enableRetry":
             self.retry = True
+        elif o == "hook":
+            (self.hooks_up if w[1] == "up" else self.hooks_down).append(w[2])
         elif o == "destroy":
             self.alive = False
             if self.conn:
@@ -147,10 +169,12 @@ class Sim:
                             if self.cconnect:
                                 self.conn = "C"
                                 self.peer_closed = False
+                                self.hook("up")
             if had_conn and self.conn and self.peer_closed:
                 self.conn, self.peer_closed, self.force_close = None, False, False
                 self.user_ref = self.user_ref
-                if self.alive and self.retry and self.tconnect:
+                self.hook("down")
+                if self.alive and self.retry and self.tconnect and self.phase == "idle":
                     self.delay, self.cconnect = 500, True
                     self.start_in_loop()
             q, self.q = self.q, []
@@ -176,8 +200,24 @@ def connect_script(rng, n):
     return toks
 
 
-def random_case(rng, maxlen=60, destroy=True, foreign_destroy_safe_only=True):
-    """a history inside the property's quantifier (scripted attempts only)"""
+UP_OPS = ["disconnect", "disconnect", "stop", "query", "query"]
+DOWN_OPS = ["connect", "connect", "query", "disconnect", "stop"]
+
+
+def hook_line(rng, sim):
+    """an operation for the connection callback, inside the property's quantifier: never connect() from the UP
+    callback (a connection is outstanding), connect() from the DOWN callback only without retry"""
+    if rng.random() < 0.55:
+        return "hook up " + rng.choice(UP_OPS)
+    op = rng.choice(DOWN_OPS)
+    if op == "connect" and sim.retry:
+        op = rng.choice(["query", "disconnect", "stop"])
+    return "hook down " + op
+
+
+def random_case(rng, maxlen=60, destroy=True, foreign_destroy_safe_only=True, hooks=0.0):
+    """a history inside the property's quantifier (scripted attempts only); `hooks`: how eagerly operations are
+    registered for the connection callback"""
     sim = Sim()
     lines = []
 
@@ -191,8 +231,14 @@ def random_case(rng, maxlen=60, destroy=True, foreign_destroy_safe_only=True):
 
     if rng.random() < 0.4:
         do("enableRetry")
+    if hooks:
+        for _ in range(rng.randrange(1, 4)):
+            do(hook_line(rng, sim))
     n = rng.randrange(5, maxlen)
     for _ in range(n):
+        if sim.alive and hooks and rng.random() < hooks * 0.12:
+            do(hook_line(rng, sim))
+            continue
         if not sim.alive:
             k = rng.random()
             if k < 0.5:
@@ -231,7 +277,10 @@ def random_case(rng, maxlen=60, destroy=True, foreign_destroy_safe_only=True):
         elif k < 0.74 and sim.conn:
             do("peer close")
         elif k < 0.78:
-            do("enableRetry")
+            if "connect" not in sim.hooks_down:
+                do("enableRetry")
+            else:
+                do("iter")
         elif k < 0.82 and sim.conn:
             do("holdRef")
         elif k < 0.85 and sim.user_ref and sim.conn is None:
@@ -247,6 +296,61 @@ def random_case(rng, maxlen=60, destroy=True, foreign_destroy_safe_only=True):
         else:
             do("iter")
     # settle: everything that is outstanding gets its chance
+    do("peer close")
+    for _ in range(3):
+        do("iter")
+    do("advance 31000000")
+    do("iter")
+    do("iter")
+    return lines
+
+
+def hook_cycle_case(rng):
+    """connect / established / peer closes, several times over, with operations registered for the UP and DOWN
+    callbacks: `hook up disconnect|stop|query`, `hook down connect` (manual reconnect) or retry-enabled automatic
+    reconnects with `hook down query|disconnect|stop`"""
+    sim = Sim()
+    lines = []
+
+    def do(l):
+        sim.op(l)
+        lines.append(l)
+
+    retry = rng.random() < 0.5
+    if retry:
+        do("enableRetry")
+    for cyc in range(rng.randrange(1, 4)):
+        if not sim.alive:
+            break
+        for _ in range(rng.randrange(0, 3)):
+            do(hook_line(rng, sim))
+        if rng.random() < 0.6:
+            do("hook up " + rng.choice(["disconnect", "stop", "query", "disconnect"]))
+        if rng.random() < 0.6:
+            do("hook down " + (rng.choice(["query", "disconnect", "stop"]) if sim.retry else rng.choice(["connect", "connect", "query"])))
+        if sim.quiet():
+            do("script connect " + rng.choice(["ok", "EINPROGRESS", "ECONNREFUSED ok", "EINPROGRESS"]))
+            do("connect " + ("F" if rng.random() < 0.25 else "L"))
+        for _ in range(4):
+            if sim.conn:
+                break
+            if sim.phase == "wait":
+                do("advance %d" % max(sim.deadline - sim.now, 0))
+            do("iter")
+        k = rng.random()
+        if k < 0.25:
+            do("iter")
+        elif k < 0.4:
+            do("holdRef")
+        elif k < 0.5:
+            do("disconnect L")
+        if rng.random() < 0.1 and sim.alive:
+            do("destroy L")
+        do("peer close")
+        do("iter")
+        do("iter")
+        if sim.user_ref and sim.conn is None:
+            do("dropRef")
     do("peer close")
     for _ in range(3):
         do("iter")
@@ -301,6 +405,8 @@ class Trace:
                     env.append(l[2:])
                 elif l.startswith("st "):
                     st = dict(kv.split("=", 1) for kv in l.split()[1:])
+                elif l.startswith("# hook "):
+                    ev.append(l[2:])     # `hook <up|down> <op> <k>`: the callback performs <op> now (oracle only)
                 elif not l.startswith("#"):
                     ev.append(l)
             self.steps.append({"op": self.ops[i] if i < len(self.ops) else "?", "events": ev, "env": env, "st": st})
@@ -326,6 +432,7 @@ def oracle(tr):
     user_ref = False
     destroyed_with_ref = False
     disconnect_pending = None   # (k, step)
+    expect_down = None          # (k, step of `peer close`, iterations since)
 
     def fail(kind, i, text):
         fails.append((kind, "step %d `%s`: %s" % (i, tr.steps[i]["op"], text)))
@@ -368,6 +475,8 @@ def oracle(tr):
                 user_ref = True
         elif o == "dropRef":
             user_ref = False
+        elif o == "peer" and current is not None and expect_down is None:
+            expect_down = (current, i, 0)
         if not in_scope:
             continue
         if o == "iter":
@@ -439,17 +548,57 @@ def oracle(tr):
                 if k not in up or k in down:
                     fail("down-without-up" if k not in up else "double-down", i, e)
                 down.add(k)
+                if expect_down and expect_down[0] == k:
+                    expect_down = None
                 if k == current:
                     current = None
                     if alive:
-                        # retry policy: a new attempt in this very dispatch iff retry_ && connect_
-                        rest = evs[evs.index(e) + 1:]
+                        # the user's callback runs first: what it does to the client counts for the decision
+                        pos = evs.index(e)
+                        rest = evs[pos + 1:]
+                        hop = rest[0].split() if rest and rest[0].startswith("hook down ") else None
+                        w_now, by_user = want, False
+                        if hop:
+                            if hop[2] in ("disconnect", "stop"):
+                                w_now = False
+                            elif hop[2] == "connect":
+                                w_now, by_user = True, True
                         again = any(x.startswith("attempt ") for x in rest)
-                        if again != (retry_enabled and want):
+                        if by_user:
+                            if retry_enabled:
+                                in_scope = False     # connect() from the DOWN callback of a client that reconnects by itself
+                            elif not again:
+                                fail("connect-in-callback-ignored", i, "connect() from the DOWN callback started no attempt")
+                        elif again != (retry_enabled and w_now):
                             fail("retry-policy", i, "connection went down with retry=%s connect=%s: %s"
-                                 % (retry_enabled, want, "a new attempt started" if again else "no new attempt"))
+                                 % (retry_enabled, w_now, "a new attempt started" if again else "no new attempt"))
                         if again:
                             cycle_ups, cycle_retry = 0, 0
+            elif e.startswith("hook "):
+                # `hook <cb> <op> <k>`: the user's callback, reporting connection k, performs <op> on the client now
+                cb, hop, k = t[1], t[2], int(t[3])
+                if not alive:
+                    fail("callback-into-destroyed-client", i, e)
+                if hop == "disconnect":
+                    want = False
+                    if cb == "up" and k in up and k not in down:
+                        # disconnect() while connection k is being reported: it must be shut down
+                        disconnect_pending = (k, i)
+                elif hop == "stop":
+                    want, stop_req = False, True
+                elif hop == "connect":
+                    if cb == "up" or [j for j, v in socks.items() if v == "open"] or expect_deadline is not None or pending_start:
+                        in_scope = False
+                    want, stop_req = True, False
+                    cycle_ups, cycle_retry = 0, 0
+                elif hop == "query":
+                    nxt = evs[evs.index(e) + 1] if evs.index(e) + 1 < len(evs) else ""
+                    if nxt != "cb QUERY self":
+                        fail("connection-not-visible-in-callback", i,
+                             "inside the %s callback of connection %d client.connection() is %s"
+                             % (cb.upper(), k, {"cb QUERY none": "null", "cb QUERY other": "another connection"}.get(nxt, "not reported (%r)" % nxt)))
+            elif e.startswith("cb QUERY"):
+                pass
             elif e.startswith("sys shutdownWr"):
                 k = int(t[2])
                 if disconnect_pending and disconnect_pending[0] == k:
@@ -480,8 +629,16 @@ def oracle(tr):
         if o == "iter" and disconnect_pending and disconnect_pending[1] < i:
             k, j = disconnect_pending
             if k not in down:
-                fail("disconnect-not-graceful", i, "disconnect() at step %d was not followed by shutdown(SHUT_WR) on connection %d" % (j, k))
+                fail("disconnect-not-graceful", i, "disconnect() at step %d (`%s`) was not followed by shutdown(SHUT_WR) on connection %d"
+                     % (j, tr.steps[j]["op"], k))
             disconnect_pending = None
+        if o == "iter" and expect_down:
+            k, j, n = expect_down
+            expect_down = (k, j, n + 1)
+            if n + 1 >= 2:
+                if socks.get(k) == "handed":
+                    fail("no-down-after-peer-close", i, "the peer of connection %d closed at step %d, two iterations later no DOWN" % (k, j))
+                expect_down = None
         # handleWrite's success path must hand over (or close when stopped) in the same step
         if any(e == "self 0" for e in s["env"]):
             if not any(x.startswith("cb UP") or x.startswith("sock closed") for x in evs):
@@ -534,7 +691,10 @@ class Prop:
                  "state tests and destructor branches are re-extracted from /repo (T1) + differential run of the real "
                  "TcpClient in a stepped EventLoop under a virtual clock with scripted/recorded socket results (T2)")
     level_text = ("Kernel-checked theorems (Props/C12.lean; lemmas Proofs/Client*.lean) over ALL histories inside the scope "
-                  "guard `Guarded` (a decidable predicate on histories), all poller reports, all connect()/SO_ERROR/"
+                  "guard `Guarded` (a decidable predicate on histories) - user operations between iterations AND operations "
+                  "performed by the user's connection callback from inside the UP / DOWN report (`hookUp/hookDown op`, op in "
+                  "disconnect, stop, connect, query connection(); executed where connectEstablished() / handleClose() call the "
+                  "callback) -, all poller reports, all connect()/SO_ERROR/"
                   "self-connect/readv results, both build flavours: an invariant `Mid` of the model is preserved by every "
                   "function, loop iteration and user operation (`reach_bnd`); it says that the event trace is accepted by a "
                   "model-independent specification automaton (`scan`) whose summary matches the state. Unfolded: `no_abort` "
@@ -547,7 +707,15 @@ class Prop:
                   "(function-level, for every invariant state: new cycle+attempt in the same dispatch iff retry_&&connect_); "
                   "`stop_silences` (from the moment stop() returns until the next connect(): no attempt, no UP, no retry timer) "
                   "and `destroyed_silent`; `disconnect_graceful` (connect_ cleared, half-close queued, and performed by the "
-                  "next iteration whatever it dispatches); `destroy_safe_inloop_sockets` (after ~TcpClient on the loop thread, "
+                  "next iteration whatever it dispatches); callbacks: `connection_visible_in_callback` (whenever the callback "
+                  "reporting connection k reads connection(), it is k), `connection_visible_in_up_callback` + "
+                  "`disconnect_in_up_callback` (function level, any state: newConnection publishes connection_ before the UP "
+                  "callback - generated `publishBeforeEstablish` - so disconnect() inside it clears connect_, makes k "
+                  "kDisconnecting and queues its half-close), `disconnect_in_callback_graceful` (any guarded history, any poll "
+                  "result: the iteration in which the UP callback runs `disconnect()` reports k UP and then performs "
+                  "shutdown(SHUT_WR) on k), `up_runs_callback`, `callback_disconnect_then_down` / "
+                  "`down_callback_disconnect_no_reconnect` (DOWN follows the peer's close, no reconnect), `retry_policy` now with "
+                  "the state in which the DOWN callback returned (`retry_policy_plain`: callback without operation); `destroy_safe_inloop_sockets` (after ~TcpClient on the loop thread, "
                   "one iteration later no attempt socket is open) and `destroy_safe_inloop_connection` (a connection nobody "
                   "else holds goes DOWN and is destroyed within two iterations; depends on the generated fact "
                   "Gen.Conn.shutdownHold = weak, F26). The model is tied to the code by T1 (generated constants, guards, errno "
@@ -556,6 +724,10 @@ class Prop:
                   "independent oracle evaluates the property on the implementation's own traces")
     level_note = ("Scope guard (explicit, decidable, `okIn`): connect() only on a live client with no attempt, connection, "
                   "pending retry timer or queued connect() outstanding; disconnect/stop/enableRetry only on a live client; "
+                  "from inside the UP callback never connect() (a connection is outstanding), from inside the DOWN callback "
+                  "connect() only when retry is off (`enableRetry` and a registered `hookDown connect` exclude each other: both "
+                  "would start an attempt; the model and the code then fail `!channel_`, example in Props/C12.lean); a callback "
+                  "that finds its client destroyed does nothing; "
                   "~TcpClient on the loop thread; the user drops a connection reference only if the connection is down or "
                   "somebody else holds it (TcpConnection's own contract). Destruction from a foreign thread is outside: "
                   "`destroy_safe_full` (any thread) is stated as a Prop and refuted on the model (`destroy_safe_full_false`, "
@@ -567,20 +739,23 @@ class Prop:
                   "connector's channel's (`chan = some k`, until the queued resetChannel) cannot be reported by the poller in the "
                   "same iteration. `retry_policy`, `backoff_timer` are function-level statements with the invariant as hypothesis.")
     rule = ("histories over {connect, disconnect, stop, enableRetry, destroy, holdRef, dropRef} from the loop thread or a "
-            "(joined) foreign thread, interleaved with loop iterations, virtual-clock advances chosen around the retry "
+            "(joined) foreign thread and {hook up|down disconnect|stop|connect|query} (performed by the client's connection "
+            "callback on the next UP / DOWN report; two random cases in five carry them, plus a family of connect / "
+            "established / peer-close cycles with callbacks, with and without retry), interleaved with loop iterations, virtual-clock advances chosen around the retry "
             "deadlines, scripted connect() results from all three classes, SO_ERROR, self-connect, POLLERR injection, peer "
             "close; plus real-loopback scenarios (server up / down / comes up later / closes immediately); a case is "
             "non-trivial when at least one attempt was made; distinct = distinct observation traces")
     trusted_base = [
         "Lean 4.33.0 kernel; axioms allowed: propext, Classical.choice, Quot.sound",
-        "vlib/extract.py + vlib/gen/client.py (clang-14 JSON AST -> Generated/Client.lean)",
+        "vlib/extract.py + vlib/gen/client.py, vlib/gen/clientskel.py (clang-14 JSON AST -> Generated/Client.lean, Generated/ClientSkel.lean)",
         "hand-written Model/Client.lean, tied by the differential run (harness/client_drv.cc vs drv_client)",
         "harness/interpose.h (link-level interposition of socket/connect/getsockopt/getsockname/close/timerfd/clock), harness/loopstep.h",
         "EventLoop, TimerQueue, Channel, pollers, TcpConnection as far as the client uses them (properties C02-C07, C09)",
     ]
     assumptions = [
         "connect() is issued only while no attempt, connection, pending retry timer or queued start of that client is outstanding (the property's quantifier)",
-        "user operations happen between loop iterations (on the loop thread, or on a foreign thread that is joined before the loop continues); operations from inside the client's own callbacks are not generated",
+        "user operations happen between loop iterations (on the loop thread, or on a foreign thread that is joined before the loop continues) or inside the client's connection callback on UP / DOWN (disconnect, stop, connect, reading connection()); the callback does not destroy the client and does nothing when it finds the client destroyed; message / write-complete callbacks do not operate on the client",
+        "connect() from inside the UP callback and connect() from inside the DOWN callback of a retry-enabled client are outside the property's quantifier (overlapping connects)",
         "the user does not drop the last reference to a connection that is still up after destroying the client",
         "foreign-thread destruction concurrent with loop activity: F11, known finding",
     ]
@@ -615,7 +790,7 @@ class Prop:
         for s in tr.steps:
             ctx.count("op:" + s["op"].split()[0])
             for e in s["events"]:
-                ctx.count("ev:" + " ".join(e.split()[:2]))
+                ctx.count("ev:" + " ".join(e.split()[:3 if e.startswith("hook ") else 2]))
             for e in s["env"]:
                 if e.startswith("connect "):
                     ctx.count("connect-result:" + e.split()[1])
@@ -694,8 +869,13 @@ class Prop:
                 if fl == "asan":
                     n = n // 3
                 for i in range(n):
-                    lines = random_case(ctx.rng, 25 if i % 4 else 70)
+                    # two cases in five register operations for the connection callback (hook up|down <op>)
+                    lines = random_case(ctx.rng, 25 if i % 4 else 70, hooks=1.0 if i % 5 in (1, 3) else 0.0)
                     self.run_one(ctx, exe, fl, lines, "random", argv=argv)
+                    if ctx.stop():
+                        return
+                for i in range(max(n // 4, 10)):
+                    self.run_one(ctx, exe, fl, hook_cycle_case(ctx.rng), "hook-cycles", argv=argv)
                     if ctx.stop():
                         return
                 for i in range(nreal if fl != "asan" else nreal // 3):
